@@ -18,7 +18,7 @@ cleanup() { git -C /repo worktree remove --force "$wt" >/dev/null 2>&1; rm -rf "
 trap cleanup EXIT
 git -C /repo worktree add --detach -q "$wt" HEAD || exit 2
 case "$mode" in
-  --patch) git -C "$wt" apply "$arg" || { echo "PATCH DOES NOT APPLY"; exit 2; };;
+  --patch) git -C "$wt" apply "$(readlink -f "$arg")" || { echo "PATCH DOES NOT APPLY"; exit 2; };;
   --revert) git -C "$wt" show "$arg" | git -C "$wt" apply -R || { echo "REVERT DOES NOT APPLY"; exit 2; };;
   --sed) f="${arg%%::*}"; e="${arg#*::}"; sed -i -E "$e" "$wt/$f"; git -C "$wt" diff --quiet && { echo "SED CHANGED NOTHING"; exit 2; };;
 esac
